@@ -69,6 +69,7 @@ from vgi_rpc.rpc._types import (
 from vgi_rpc.shm import ShmSegment, is_shm_pointer_batch, maybe_write_to_shm, resolve_shm_batch
 from vgi_rpc.utils import (
     ArrowSerializableDataclass,
+    IPCError,
     IpcValidation,
     ValidatedReader,
     _is_optional_type,
@@ -403,7 +404,25 @@ def _read_request(
 
     """
     reader = ValidatedReader(ipc.open_stream(reader_stream), ipc_validation)
-    batch, custom_metadata = reader.read_next_batch_with_custom_metadata()
+    try:
+        batch, custom_metadata = reader.read_next_batch_with_custom_metadata()
+    except IPCError as exc:
+        # The batch came off the wire intact -- the framing is sound, it is
+        # the *contents* that fail validation (a date64 that is not a whole
+        # number of days, invalid UTF-8 in a string column, ...).  That is a
+        # malformed request, so consume the rest of the request stream (see
+        # the note below) and refuse it as one.  Left as an IPCError it
+        # matched no handler: it escaped the serve loop without a reply and
+        # with the stream half-read (pipe), or was reported as a server-side
+        # failure (HTTP).
+        while True:
+            try:
+                reader.read_next_batch()
+            except IPCError:
+                continue
+            except StopIteration:
+                break
+        raise RpcError("ProtocolError", f"Invalid request batch: {exc}", "") from exc
     # Drain past the request stream's EOS *before* any validation that
     # might raise.  On pipe/subprocess transports the underlying reader
     # is shared across requests, so a rejected request that left bytes
